@@ -357,7 +357,7 @@ CHECKS = {
         pkg="c16",
         level="fault_enumeration",
         technique="property-based testing (rapid) over upstream lists with injected fates and session-loss histories against a policy reference model; relays count physical connections",
-        rule=("case = (1-4 upstreams of kind tcp/http/udp each with a fate works / refused / answers an error status / works but "
+        rule=("case = (1-4 upstreams of kind tcp/tcp+tls/http/udp each with a fate works / refused / answers an error status / works but "
               "insecure while security is required / (separate concurrent enumeration) accepts and stays silent; forward address "
               "none/reachable/unreachable; k=1-5 concurrent local connections; session loss none / carrier cut RST / carrier cut "
               "FIN / server restart, then 1-3 further local connections). Each working server has its own banner target. Oracle "
@@ -384,7 +384,7 @@ CHECKS = {
               "actively echoing). Oracle: the non-closing end reads exactly the bytes the closer's writes accepted, then "
               "end-of-stream, within 30 s (120 s DNS); the other logical connections still echo afterwards. non-trivial = "
               "payload length >= 1; distinct = distinct case tuple"),
-        assumptions=["only full close is exercised (the property does not promise half-close semantics)",
+        assumptions=["after a shutdown of the writing direction nothing further is expected to flow back (the property does not promise half-close semantics), only that the connection ends",
                      "the non-closing end writes nothing on the closing connection, so no unread data can turn the close into a reset"],
         quick=dict(run=".", checks=150, timeout=900),
         thorough=dict(run=".", checks=500, timeout=3000, shards=8),
@@ -399,7 +399,7 @@ CHECKS = {
         technique="enumeration of documented schemes and neighbours through the real YAML/JSON/command-line parsers with wire-behaviour probes of the constructed endpoints + property-based testing (rapid) of near-miss address strings",
         rule=("cases = (position server/upstream/listener/channel, input form YAML / JSON flag / command line, address string). Every "
               "documented scheme and +tls variant and a list of neighbours (ws, wss, stdio, upper case, tcp4/tpc4, tcp+ssl, "
-              "tls+tcp, ftp, udp+tls, empty...) is parsed by the real go-flags + YamlParser assembly of main.go (command execution "
+              "tls+tcp, ftp, udp+tls, empty, and documented bases with an undocumented '+' suffix: stdin+tsl, stdin+ssl, unix+ssl, dns+tls, https+tls, http+ssl, udp+dtls, tcp+ ...) is parsed by the real go-flags + YamlParser assembly of main.go (command execution "
               "intercepted). Constructed servers are started on loop-back and probed on the wire (plaintext announce answered, TLS "
               "handshake + announce, websocket upgrade, KCP, DNS query over udp/tcp, pipes for stdio); constructed upstreams are "
               "connected to recorders and classified by their first bytes (announce / TLS ClientHello / websocket upgrade / KCP / "
@@ -442,6 +442,18 @@ CHECKS = {
 }
 
 # commits in /repo that add build-tag guarded hooks (none: the overlay technique needs no source hooks)
+# generator dimensions added after the seeding rounds (DESIGN.md sections 7 and 8); appended to the rule texts
+RULE_ADDENDA = {
+    "C01": "In addition every application write length 1..420 (thorough 1..1600) is sent over one DNS logical connection, one write at a time, and echoed back (all residues of the write length modulo the tunnel's chunk size; always counted non-trivial).",
+    "C13": "openMany: 2-5 version handshakes issued at the same instant (also as the first step of a history); identifiers must be distinct, must be the ones the server accepted, and every session must work.",
+    "C14": "Histories also carry refused requests (none / unknown channel / channel whose target refuses connections; one after every working connection) and 0-6 idle logical connections open when the session ends, whose sockets and goroutines must be released and whose applications must see end-of-stream.",
+    "C15": "A DNS peer either keeps polling and is silent on the tunnelled stream only, or stops sending DNS queries altogether once what it sent is acknowledged, leaving the server's answer unfetched; the 5 DNS stall points x {polling, not polling} are enumerated in both tiers in addition to the random draws.",
+    "C16": "After a loss the further local connections are made one at a time or 2-5 at the same instant; a deviation is re-run once and counts only when reproduced.",
+    "C17": "Further dimensions: the close may be a shutdown of the writing direction only (the closer then must see its own connection end within the same bound); a request for an unknown channel may be refused between the first and second write. TestWriteThenCloseHammer: 40000 (thorough 400000) short write-then-close connections at GOMAXPROCS 2, every one must deliver its bytes before end-of-stream.",
+}
+for _k, _add in RULE_ADDENDA.items():
+    CHECKS[_k]["rule"] = CHECKS[_k]["rule"] + " " + _add
+
 REPO_HOOK_COMMITS = []
 
 _ALL = ["C%02d" % i for i in range(1, 20)]
